@@ -663,6 +663,50 @@ func main() {
 	w("def startGameBlindRead : String := %s", leanStr(blindRead))
 	w("")
 
+	// ---- PlayerFold: where the fold round written to the statistics is read (before the fold is applied, or after)
+	foldRead := "unknown"
+	if fd := findFunc(te, "tableEngine", "PlayerFold"); fd != nil {
+		rhs := ""
+		ast.Inspect(fd.Body, func(n ast.Node) bool {
+			a, ok := n.(*ast.AssignStmt)
+			if ok && len(a.Lhs) == 1 && len(a.Rhs) == 1 && strings.HasSuffix(src(a.Lhs[0]), "GameStatistics.FoldRound") {
+				rhs = src(a.Rhs[0])
+			}
+			return true
+		})
+		iFold := -1
+		for i, st := range fd.Body.List {
+			if iFold < 0 && strings.Contains(src(st), "te.game.Fold(") {
+				iFold = i
+			}
+		}
+		foldRead = "after-the-fold|" + rhs
+		for i, st := range fd.Body.List {
+			a, ok := st.(*ast.AssignStmt)
+			if ok && a.Tok == token.DEFINE && len(a.Lhs) == 1 && len(a.Rhs) == 1 && src(a.Lhs[0]) == rhs && iFold >= 0 && i < iFold {
+				foldRead = "before-the-fold|" + src(a.Rhs[0])
+			}
+		}
+	}
+	w("def foldRoundRead : String := %s", leanStr(foldRead))
+	w("")
+
+	// ---- PlayerBet / PlayerAllin: which hand state says whether the action made the player the raiser
+	raiserReads := []string{}
+	for _, fn := range []string{"PlayerBet", "PlayerAllin"} {
+		if fd := findFunc(te, "tableEngine", fn); fd != nil {
+			ast.Inspect(fd.Body, func(n ast.Node) bool {
+				i, ok := n.(*ast.IfStmt)
+				if ok && strings.Contains(src(i.Cond), "CurrentRaiser") {
+					raiserReads = append(raiserReads, fn+": "+src(i.Cond))
+				}
+				return true
+			})
+		}
+	}
+	w("def raiserReads : List String := %s", leanList(raiserReads))
+	w("")
+
 	// ---- statistics: the event symbol validateGameStatisticGameState compares with
 	statEv := "unknown"
 	if fd := findFunc(stats, "tableEngine", "validateGameStatisticGameState"); fd != nil && len(fd.Body.List) > 0 {
